@@ -40,6 +40,7 @@ def replay(rec):
         ocp.add_objective(ocp.integral(chain[0] * chain[1]))
         xx = ca.vertcat(chain[0], chain[1]); dx = ocp.next(xx) - xx
         ocp.add_objective(ocp.sum(ca.dot(dx, dx)))
+        ocp.add_objective(ocp.integral(ocp.next(chain[0]) * chain[1], grid='control'))
         ocp.solver('ipopt')
         def grid_fun(n):
             # the method asks for the refined grid as well: equal subdivision of every control interval
@@ -70,6 +71,10 @@ def replay(rec):
         ev = lambda e: np.array(ca.Function('f', [vx, vp], [e])(xv, pv)).reshape(-1)
         res.append(('C17.c:greville',) + seq_compare(list(ev(tg)), rec['greville']))
         fobs = float(ev(opti.f)[0])
+        from fractions import Fraction as _F
+        if not isbad(rec['obj']) and not isbad(rec['objn']):
+            tot = _F(*rec['obj']) + _F(*rec['objn']); rec = dict(rec, obj=[tot.numerator, tot.denominator])
+        elif isbad(rec['objn']): rec = dict(rec, obj=rec['objn'])
         res.append(('C17.c:f', 'inconclusive' if isbad(rec['obj']) else 'ok' if close(fobs, rec['obj']) else 'mismatch', 'objective at the probe %r, declared terms sum to %s' % (fobs, Fr(*rec['obj']) if not isbad(rec['obj']) else 'n/a')))
         for i, s in enumerate(chain):
             _, v = quiet(ocp.sample, s, grid='control')
